@@ -4,6 +4,7 @@
 import DV.Model.TableWF
 import DV.Properties.C03
 import DV.Properties.C03Round
+import DV.Properties.C03Nested
 import DV.Generated.Dict
 import DV.Generated.Classes
 import DV.Generated.Commands
@@ -91,5 +92,22 @@ theorem C03_tables_roundtrip_flat (g : Bool) (fuel fuel' cls : Nat) (c : ClassDe
   have hwf := hall.2 c hmem
   simp only [classWF, Bool.and_eq_true] at hwf
   exact C03_roundtrip_flat Gen.dict Gen.classes g fuel fuel' cls c fs additional avps hc hwf.1.1.2 hadd hval hshape hund hgen
+
+/-- every definition of the working tree has a 32-bit code and vendor id -/
+theorem C03_tables_defs_in_range : defsInRange Gen.classes = true := by decide +kernel
+
+/-- **The whole-object round trip for the classes of the working tree**: for every
+    depth and every object tree over the regenerated classes whose attributes hold
+    in-domain values of the declared shape, whose undeclared AVPs are well-formed
+    and whose generated AVPs fit the 24-bit length field (`GoodW`): generate →
+    encode → decode → assign restores the tree.  The table facts (`allClassesWF`) are discharged by
+    `C03_tables_wellformed`. -/
+theorem C03_tables_roundtrip_nested (g : Bool) (n cls : Nat) (fs : List (Nat × FVal)) (add avps : List Avp)
+    (hg : GoodW Gen.dict Gen.classes n (.obj cls fs add))
+    (hgen : generateFuel rfcTime Gen.dict Gen.classes n (.obj cls fs add) = .ok avps) :
+    ∃ bytes, encodeAvps avps = .ok bytes ∧ decodeAvps bytes 0 = .ok avps ∧
+      ∃ back, assignFuel (getValue rfcTime g) Gen.dict Gen.classes n cls avps = .ok back ∧
+        Restored Gen.classes n (.obj cls fs add) back :=
+  C03_roundtrip_wellformed_tables Gen.dict Gen.classes _ C03_tables_wellformed C03_tables_defs_in_range g n cls fs add avps hg hgen
 
 end DV
